@@ -40,6 +40,14 @@ def command_lines(ck, wd):
         ["php", "regular", "4", "4", "2"], ["subsetcard", "glrd", "4", "4", "2", "plantbiclique", "2", "2"],
         ["kcolor", "2", "gnp", "6", ".5", "3"], ["iso", "gnp", "5", ".5", "-e", "gnm", "5", "5"],
         ["php", "3"], ["op", "4", "--total"], ["cpls", "2", "2", "2"],
+        # several random components in the same graph argument (their order of application matters)
+        ["kcolor", "3", "gnp", "8", ".5", "plantclique", "4", "addedges", "3"],
+        ["kcolor", "3", "gnp", "8", ".5", "plantclique", "4", "addedges", "3", "splitedges", "2"],
+        ["kclique", "3", "gnd", "10", "4", "addedges", "3", "splitedges", "2"],
+        ["php", "glrp", "5", "4", ".5", "plantbiclique", "2", "2", "addedges", "3"],
+        ["php", "glrd", "5", "4", "2", "plantbiclique", "2", "2", "addedges", "2"],
+        ["tseitin", "first", "grid", "3", "3", "plantclique", "3", "addedges", "2"],
+        ["subgraph", "-G", "gnp", "6", ".5", "addedges", "2", "-H", "gnm", "3", "2", "plantclique", "3"],
     ]
     only_cnfgen = [
         ["php", "4", "3", "-T", "shuffle"], ["php", "3", "2", "-T", "xorcomp", "6", "2"],
@@ -63,7 +71,8 @@ def ambient(wd, k, rng):
     inside_other_repo = os.path.join(wd, "cwd_inside_verif")
     os.makedirs(inside_other_repo, exist_ok=True)
     cwds = [common.REPO, inside_other_repo, "/"]
-    return {"cwd": cwds[k % 3], "PYTHONHASHSEED": str([0, 12345, 987654321][k % 3]), "pad": "x" * (k * 997)}
+    hs = [0, 5, 12345, 1, 987654321, 7][(k + rng.randint(0, 1) * 3) % 6] if k else 0
+    return {"cwd": cwds[k % 3], "PYTHONHASHSEED": str(hs), "pad": "x" * (k * 997)}
 
 
 def run_child(job):
@@ -103,7 +112,7 @@ def main(argv=None):
             raise tlc.MachineryError("CliDet_%s.cfg was expected to exhibit a counterexample" % fact)
         ck.count("expected_counterexamples_found", 1)
     seeds = [0, 1, 42] if ck.quick else [0, 1, 42, -7, 2 ** 31 - 1, 10 ** 12]
-    nruns = 2 if ck.quick else 3
+    nruns = 3 if ck.quick else 5
     jobs, meta = [], {}
     n = 0
     lines = command_lines(ck, wd)
